@@ -1,4 +1,5 @@
 import MimicProofs.ConnLife
+import Mimic.Extracted.ServerCode
 import MimicProofs.Script
 import MimicProps.C03
 import Mimic.Extracted.Handlers
@@ -80,5 +81,37 @@ theorem coroutine_skeletons : Mimic.Extracted.Handlers.coroutine = [
       ("Connection.start", "SET(_task=asyncio.create_task(self._start())) TRY[AWAIT(_task)] FINALLY[SET(_task=None)]"),
       ("MysqlServer._client_connected_cb", "TRY[] EXCEPT(Exception)[W(err,drain) RETURN] TRY[CALL(add)] EXCEPT(TooManyConnections)[W(other,drain) RETURN] EXCEPT(Exception)[W(other,drain) RETURN] TRY[CALL(start)] FINALLY[DO(close) CALL(remove)]")] := by
   rfl
+
+/-! ### the accept callback itself (`Mimic.Extracted.ServerCode`: `MysqlServer._client_connected_cb`, read off its AST by symbolic
+execution over the outcomes of the session factory / `Connection(...)`, of `control.add` and of `connection.start()`) -/
+section server
+open Mimic.Extracted.ServerCode
+
+/-- **An admitted connection is always released**: whether `connection.start()` returns or raises, the callback closes the
+    writer and then removes exactly the id `control.add` returned — once, after `start`, nothing in between -/
+theorem code_admitted_is_released (s : StartOut) :
+    (client_connected_cb .ok .id s).1 = [.factory, .add, .set_id, .start, .writer_close, .remove .added_id] := by
+  cases s <;> rfl
+
+/-- `control.remove` is called only for a connection that `control.add` admitted, only with the id it returned, at most once -/
+theorem code_remove_only_what_was_added (f : FactoryOut) (a : AddOut) (s : StartOut) :
+    (∀ x, SEv.remove x ∈ (client_connected_cb f a s).1 → f = .ok ∧ a = .id ∧ x = .added_id) ∧
+    ((client_connected_cb f a s).1.filter (fun e => match e with | .remove _ => true | _ => false)).length ≤ 1 := by
+  cases f <;> cases a <;> cases s <;> simp [client_connected_cb]
+
+/-- a client that is turned away (factory / constructor failure, full registry, failing registration) gets exactly one ERR —
+    1040 for a full registry —, is never started, never registered-and-forgotten, and no exception leaves the callback -/
+theorem code_refused_gets_one_err (f : FactoryOut) (a : AddOut) (s : StartOut) (h : f = .raises ∨ a ≠ .id) :
+    SEv.start ∉ (client_connected_cb f a s).1 ∧ (client_connected_cb f a s).2 = false ∧
+    ((client_connected_cb f a s).1.filter (fun e => match e with | .write_err _ => true | _ => false)).length = 1 ∧
+    (f = .ok → a = .too_many → SEv.write_err (some 1040) ∈ (client_connected_cb f a s).1) := by
+  cases f <;> cases a <;> cases s <;> simp_all [client_connected_cb]
+
+/-- an exception leaves the callback only when `connection.start()` raised, and then after the release -/
+theorem code_raises_only_from_start (f : FactoryOut) (a : AddOut) (s : StartOut) :
+    (client_connected_cb f a s).2 = true ↔ f = .ok ∧ a = .id ∧ s = .raises := by
+  cases f <;> cases a <;> cases s <;> simp [client_connected_cb]
+
+end server
 
 end MimicProps.C10
